@@ -489,6 +489,10 @@ fn worker(
             }
         }
         let mut dfs = Dfs::new(cell.bound, &item.prefix);
+        if !item.prefix.is_empty() {
+            // the last node of a donated prefix is a tree node nobody has counted yet
+            dfs.new_nodes = 1;
+        }
         let mut local = ScenarioStats::default();
         let mut out_all: Vec<u64> = vec![];
         let mut out_nt: Vec<u64> = vec![];
